@@ -166,3 +166,156 @@ func BuildQuery(fr *FuncResult, in *Instance) string {
 	}
 	return sb.String()
 }
+
+// BuildGroupQuery renders all path instances of one obligation as a single
+// query: the disjunction over paths of (path assumptions and negated goal).
+// unsat means every instance is valid.
+func BuildGroupQuery(fr *FuncResult, ins []*Instance) string {
+	var sb strings.Builder
+	for _, d := range fr.Decls {
+		sb.WriteString(d)
+		sb.WriteByte('\n')
+	}
+	for _, a := range fr.Axioms {
+		sb.WriteString("(assert " + a + ")\n")
+	}
+	// assumptions common to every instance are asserted once
+	common := map[string]int{}
+	for _, in := range ins {
+		seen := map[string]bool{}
+		for _, a := range in.Assumes {
+			if !seen[a] {
+				seen[a] = true
+				common[a]++
+			}
+		}
+	}
+	isCommon := func(a string) bool { return common[a] == len(ins) }
+	emitted := map[string]bool{}
+	for _, in := range ins {
+		for _, a := range in.Assumes {
+			if isCommon(a) && !emitted[a] {
+				emitted[a] = true
+				sb.WriteString("(assert " + a + ")\n")
+			}
+		}
+	}
+	sb.WriteString("(assert (or\n")
+	for _, in := range ins {
+		sb.WriteString(" (and true")
+		for _, a := range in.Assumes {
+			if !isCommon(a) {
+				sb.WriteString(" " + a)
+			}
+		}
+		if !in.Cover {
+			sb.WriteString(" (not " + in.Goal + ")")
+		}
+		sb.WriteString(")\n")
+	}
+	sb.WriteString("))\n")
+	return sb.String()
+}
+
+// SolveGroup decides one obligation (all its path instances). It first tries
+// the combined query; if that is not unsat it solves instance by instance to
+// locate the failing path. Returns the overall status and the failing instance.
+func SolveGroup(fr *FuncResult, ins []*Instance, timeoutS int, thorough bool) (string, *Instance, SolveResult) {
+	var work []*Instance
+	for _, in := range ins {
+		if !in.Cover && in.Goal == "true" {
+			continue
+		}
+		work = append(work, in)
+	}
+	if len(work) == 0 {
+		return "unsat", nil, SolveResult{Status: "unsat", Solver: "trivial"}
+	}
+	cover := work[0].Cover
+	if len(work) > 6 {
+		return solveEach(fr, work, timeoutS, thorough, cover)
+	}
+	if len(work) > 1 {
+		r := Solve(BuildGroupQuery(fr, work), timeoutS, thorough, cover)
+		if cover && r.Status == "sat" {
+			return "sat", nil, r
+		}
+		if !cover && r.Status == "unsat" {
+			return "unsat", nil, r
+		}
+	}
+	var total int64
+	var lastUnknown *Instance
+	var lastUnknownRes SolveResult
+	allUnsat := true
+	for _, in := range work {
+		r := Solve(BuildQuery(fr, in), timeoutS, thorough, cover)
+		total += r.Ms
+		if cover {
+			if r.Status != "unsat" {
+				r.Ms = total
+				return "sat", in, r
+			}
+			continue
+		}
+		switch r.Status {
+		case "unsat":
+		case "sat":
+			r.Ms = total
+			return "sat", in, r
+		default:
+			allUnsat = false
+			lastUnknown, lastUnknownRes = in, r
+		}
+	}
+	if cover {
+		return "unsat", work[0], SolveResult{Status: "unsat", Ms: total}
+	}
+	if allUnsat {
+		return "unsat", nil, SolveResult{Status: "unsat", Ms: total, Solver: "z3-5.1"}
+	}
+	lastUnknownRes.Ms = total
+	return lastUnknownRes.Status, lastUnknown, lastUnknownRes
+}
+
+// solveEach solves the instances of an obligation concurrently (bounded by the solver semaphore).
+func solveEach(fr *FuncResult, work []*Instance, timeoutS int, thorough, cover bool) (string, *Instance, SolveResult) {
+	type out struct {
+		in *Instance
+		r  SolveResult
+	}
+	ch := make(chan out, len(work))
+	t0 := time.Now()
+	for _, in := range work {
+		go func(in *Instance) { ch <- out{in, Solve(BuildQuery(fr, in), timeoutS, thorough, cover)} }(in)
+	}
+	var sat, unk *out
+	for range work {
+		o := <-ch
+		o2 := o
+		switch {
+		case cover && o.r.Status != "unsat":
+			if sat == nil {
+				sat = &o2
+			}
+		case !cover && o.r.Status == "sat":
+			if sat == nil {
+				sat = &o2
+			}
+		case !cover && o.r.Status != "unsat":
+			if unk == nil {
+				unk = &o2
+			}
+		}
+	}
+	ms := time.Since(t0).Milliseconds()
+	if sat != nil {
+		sat.r.Ms = ms
+		return "sat", sat.in, sat.r
+	}
+	if unk != nil {
+		unk.r.Ms = ms
+		return unk.r.Status, unk.in, unk.r
+	}
+	return "unsat", nil, SolveResult{Status: "unsat", Ms: ms, Solver: "z3-5.1"}
+}
